@@ -1,6 +1,7 @@
 package c03
 
 import (
+	"encoding/json"
 	"fmt"
 	"os"
 	"sort"
@@ -203,4 +204,45 @@ func TestC03Coverage(t *testing.T) {
 		}
 	}
 	t.Logf("covered by: %v; uncovered %d", by, uncovered)
+}
+
+// TestC03FindingsSelfCheck (development aid, VERIF_TRIAGE=findings): runs the stored case of every staged C03
+// finding and prints whether it fails on the tree under test and which predicate recognises it.
+func TestC03FindingsSelfCheck(t *testing.T) {
+	if os.Getenv("VERIF_TRIAGE") != "findings" {
+		t.Skip("development aid")
+	}
+	raw, err := os.ReadFile("/verif/known_findings.d/C03.json")
+	if err != nil {
+		t.Fatal(err)
+	}
+	var all struct {
+		Findings []struct {
+			ID     string `json:"id"`
+			Status string `json:"status"`
+			Case   Case   `json:"case"`
+		} `json:"findings"`
+	}
+	if err := json.Unmarshal(raw, &all); err != nil {
+		t.Fatal(err)
+	}
+	for _, f := range all.Findings {
+		_, oerr := oracle(f.Case)
+		model, perr := xlate.Parse(f.Case.Query)
+		pred := "parse-error"
+		own := false
+		if perr == nil {
+			pred = qcase.C03ExcludedBy(model, func(string) bool { return true })
+			for _, of := range qcase.C03OpenFindings {
+				if of.ID == f.ID {
+					own = of.Pred(model)
+				}
+			}
+		}
+		verdict := "passes"
+		if oerr != nil {
+			verdict = "FAILS: " + triageSig(oerr.Error())
+		}
+		t.Logf("%-6s %-58s %s | first predicate: %s | own predicate matches: %v", f.Status, f.ID, verdict, pred, own)
+	}
 }
